@@ -123,7 +123,7 @@ KEEP = {
     "cfg": ("ev", "id", "cfg"), "tick": ("ev", "n"), "req": ("ev", "id", "client", "plan"),
     "dispatch": ("ev", "id", "b"), "reply": ("ev", "id", "status", "kind", "h"),
     "mark": ("ev", "b"), "probe": ("ev", "b", "r"),
-    "admin": ("ev", "op", "name", "w", "s", "status", "pre", "items"),
+    "admin": ("ev", "op", "name", "w", "s", "status", "pre", "items", "addr"),
     "snap": ("ev", "total", "ok", "failed", "limited", "backends", "health", "list"),
     "held": ("ev", "id"), "stuck": ("ev", "id", "at"), "drift": ("ev",), "skip": ("ev",),
     "setprobe": ("ev", "b", "r"), "setmode": ("ev",), "stopped": ("ev",),
@@ -142,6 +142,9 @@ def project(trace_path, out_path):
                 e = {"ev": e["ev"]}
             else:
                 e = {x: e[x] for x in k if x in e}
+            if e["ev"] == "admin":
+                # the address itself is not judged, only whether it is one that cannot parse
+                e["bad"] = str(e.pop("addr", "")).startswith("http://[")
             if e["ev"] == "cfg":
                 c = e["cfg"]
                 e["cfg"] = {"strategy": c["strategy"], "backends": c["backends"],
